@@ -177,7 +177,10 @@ FinalBad(x) ==
     IF x.hard THEN (IF On("InvNoStall") THEN "InvNoStall" ELSE "")
     ELSE IF On("InvNoUseAfterFree") /\ Len(x.anomalies) > 0 THEN "InvNoUseAfterFree"
     ELSE IF On("InvDestroyedAtMostOnce") /\ (\E i \in 1..Len(x.drops) : x.drops[i][2] > 1) THEN "InvDestroyedAtMostOnce"
-    ELSE IF On("InvDestroyedExactlyOnce") /\ x.torn_down /\ x.tracked /\ (\E i \in 1..Len(x.drops) : x.drops[i][2] # 1) THEN "InvDestroyedExactlyOnce"
+    \* "exactly once as soon as it has been delivered and every handle to it released": everything was consumed (by the streams or the
+    \* final drain), nothing is held any more, so every payload ever created must already be destroyed -- before the channel is torn down
+    ELSE IF On("InvDestroyedExactlyOnce") /\ x.tracked /\ x.drained /\ x.held = 0 /\ Quiet
+            /\ (\E i \in 1..Len(x.drops_at_quiescence) : x.drops_at_quiescence[i][2] # 1) THEN "InvDestroyedExactlyOnce"
     ELSE IF On("InvLeftoversLegal") /\ LeftBad(x) THEN Tag("InvLeftoversLegal", ~LeftBadP(x, TRUE))
     ELSE IF On("InvAllDelivered") /\ Quiet /\ Missing(x) THEN Tag("InvAllDelivered", ~MissingP(x, TRUE))
     ELSE IF On("InvNoGaps") /\ Quiet /\ x.drained /\ Gap(x) THEN Tag("InvNoGaps", ~GapP(x, TRUE))
